@@ -11,7 +11,7 @@
    [no_overread]: no File parameter's payload is followed by further buffer content (known finding
    graph:file-param-overread: otherwise the statement is false of the code, see the last theorem). *)
 From Coq Require Import String Ascii List ZArith.
-From PF Require Import Base.Bytes Graph.Schema Graph.SchemaProofs Graph.Instance Graph.InstanceProofs Graph.Values Graph.ValuesProofs Check.C12.
+From PF Require Import Base.Bytes Graph.Schema Graph.SchemaProofs Graph.Instance Graph.InstanceProofs Graph.Values Graph.ValuesProofs Graph.SortedProofs Check.C12.
 Open Scope N_scope.
 
 (* 1. same graph: ids, types, wiring INCLUDING the order of array inputs, parameter records (name,
@@ -244,6 +244,35 @@ Example unclean_producer_names_reload :
   decode_fixed the_table (encode the_table (run the_table h)) = Some (run the_table h)
   /\ i_prods (run the_table h) = [("", "Node-3"); ("./x.txt", "Node-0"); ("docs/../x.txt", "Node-2"); ("x.txt", "Node-1")].
 Proof. vm_compute. split; reflexivity. Qed.
+
+(* 14. the id table and the order of the tables: after ANY edit history (no hypothesis on the type table) no two
+       nodes share an id, no two producers a name, and the node table, the producer table and the top level of the
+       metadata object are in ascending bytewise key order — the order EncodeToAppSchema visits nodes in (payload
+       offsets) and encoding/json writes map keys in; a reloaded graph that is edited further keeps it *)
+Theorem no_two_nodes_share_an_id : forall (T : table) (h : list op), NoDup (ids (run T h)).
+Proof. exact ids_distinct. Qed.
+Print Assumptions no_two_nodes_share_an_id.
+
+Theorem no_two_producers_share_a_name : forall (T : table) (h : list op), NoDup (map fst (i_prods (run T h))).
+Proof. exact producer_names_distinct. Qed.
+Print Assumptions no_two_producers_share_a_name.
+
+Theorem tables_stay_in_key_order : forall (T : table) (h : list op),
+  sorted (i_nodes (run T h)) /\ sorted (i_prods (run T h)) /\ sorted (i_meta (run T h)).
+Proof. exact run_ordered. Qed.
+Print Assumptions tables_stay_in_key_order.
+
+Theorem tables_stay_in_key_order_after_reload : forall (T : table) (h c : list op) (s' : inst),
+  table_ok T -> decode_fixed T (encode T (run T h)) = Some s' -> ordered (fst (run_from T s' c)).
+Proof. exact continuation_ordered. Qed.
+Print Assumptions tables_stay_in_key_order_after_reload.
+
+(* Go's < on strings (bytewise) is a strict total order: what "sorted" means above *)
+Theorem string_order_strict_total : forall a b c : string,
+  str_ltb a a = false /\ (str_ltb a b = true -> str_ltb b c = true -> str_ltb a c = true)
+  /\ (str_ltb a b = false -> a <> b -> str_ltb b a = true).
+Proof. intros a b c. split; [apply str_ltb_irrefl|]. split; [apply str_ltb_trans|apply str_ltb_total]. Qed.
+Print Assumptions string_order_strict_total.
 
 (* non-vacuity: the table of the binding (the repository's parameter types, array-input processors, artifact
    nodes) is well formed, and a history with 11 array connections meets the hypotheses and reloads *)
